@@ -11,14 +11,7 @@
 (* spec/mc — the model refines the contract — and (b) on traces of the     *)
 (* real application by spec/trace/Trace.tla.                                *)
 (***************************************************************************)
-EXTENDS Invariants
-
-IsTx(k, e, name)   == k = "Tx" /\ e.name = name
-TxOK(k, e, name)   == k = "Tx" /\ e.name = name /\ e.ok
-Arg(e, a, d)       == IF a \in DOMAIN e.args THEN e.args[a] ELSE d
-Resp(e, a, d)      == IF a \in DOMAIN e.resp THEN e.resp[a] ELSE d
-DBal(s, t, a, d)   == Bal(t, a, d) -- Bal(s, a, d)
-DSupply(s, t, d)   == Supply(t, d) -- Supply(s, d)
+EXTENDS Events, Vesting, Oracle
 
 -----------------------------------------------------------------------------
 (* Ghost state transition *)
@@ -42,7 +35,10 @@ GhostNext(k, e, s, t, g) ==
                   ELSE IF inc \prec Zero THEN
                          (IF forceClose /\ x[1] \in CommitAccts(s) /\ s.commit.acct[x[1]].kind = "levpos" THEN << >> ELSE LiveLocks(old, now))
                   ELSE old]
-  IN [g EXCEPT !.donated = don1, !.c12drift = drift, !.locks = locks]
+  IN [g EXCEPT !.donated = don1, !.c12drift = drift, !.locks = locks, !.vest = VestGhostNext(k, e, s, t, g.vest)]
+
+\* ghost state at the start of a trace / schedule
+GhostStart(s) == [GhostInit(s) EXCEPT !.vest = VestGhostInit(s)]
 
 -----------------------------------------------------------------------------
 (* C15 — supply rules, on every event *)
@@ -346,7 +342,7 @@ C13StepChecks(k, e, s, t, g) ==
       ELSE {})
      \cup
      (IF IsTx(k, e, "masterchef.MsgClaimRewards") THEN
-        { Chk("C13", "C13.step.claim_always_succeeds", TRUE, e.ok, e.log) }
+        { Chk("C13", "C13.step.claim_always_succeeds", e.stage = "msgs", e.stage = "msgs" => e.ok, e.log) }
       ELSE {})
      \cup
      (IF isClaim THEN
@@ -396,4 +392,8 @@ LedgerChecks(k, e, s, t, g) ==
 StepChecks(k, e, s, t, g) ==
   C15StepChecks(k, e, s, t, g) \cup C12StepChecks(k, e, s, t, g) \cup C18StepChecks(k, e, s, t, g) \cup LedgerChecks(k, e, s, t, g)
     \cup PositionChecks(k, e, s, t, g) \cup KProductChecks(k, e, s, t, g) \cup C13StepChecks(k, e, s, t, g) \cup C07StepChecks(k, e, s, t, g)
+    \cup C14StepChecks(k, e, s, t, g.vest) \cup C16StepChecks(k, e, s, t)
+
+\* every state invariant of the specification (Invariants.tla + the sub-machines)
+AllInvChecks(s, g) == InvChecks(s, g) \cup InvC14(s, g.vest) \cup InvC16(s)
 =============================================================================
